@@ -305,3 +305,6 @@ def run(rep, programs):
               "a local reservation adds its counter l to classes[c].free_frames while Trees::stats already counts the reserved tree's "
               "whole slot (g free, TREE_FRAMES - g allocated): sum over classes of free+alloc = trees*TREE_FRAMES + sum(l) whenever "
               "a reservation holds free frames", cf[0][2] if cf else b.span)
+    # after a drain no reservation is left to be counted a second time: drain visits every slot
+    from props import c10
+    c10.r_drain_total(rep, prog)
